@@ -58,6 +58,8 @@ const (
 	SignBigPos       // > tolerance (strictly positive, far from 0)
 	SignBigNeg
 	SignZero
+	SignSmallPos // strictly positive but within the equality tolerance
+	SignSmallNeg
 )
 
 // Facts maps canonical keys of expressions to their sign class in the current case.
@@ -112,6 +114,32 @@ func signOf(e Expr) Sign {
 	if s := signOfCore(e); s != SignUnknown {
 		return s
 	}
+	// a quantity that is far from zero keeps its sign when a tiny constant (a tolerance) is added
+	if ActiveFacts != nil && len(e.terms) >= 2 {
+		var rest []term
+		var c *big.Rat
+		for _, t := range e.terms {
+			if len(t.f) == 0 {
+				c = t.c
+			} else {
+				rest = append(rest, t)
+			}
+		}
+		if c != nil {
+			if f, _ := c.Float64(); f > -1e-6 && f < 1e-6 {
+				switch s := signOfCore(Expr{terms: rest}); s {
+				case SignBigPos, SignBigNeg:
+					return s
+				case SignSmallPos, SignSmallNeg:
+					// |rest| is strictly inside the tolerance: the tolerance-sized constant decides
+					if f > 0 {
+						return SignSmallPos
+					}
+					return SignSmallNeg
+				}
+			}
+		}
+	}
 	if provablyPositive(e) {
 		return SignBigPos
 	}
@@ -154,6 +182,10 @@ func signOfCore(e Expr) Sign {
 			return SignBigNeg
 		case SignBigNeg:
 			return SignBigPos
+		case SignSmallPos:
+			return SignSmallNeg
+		case SignSmallNeg:
+			return SignSmallPos
 		}
 		return s
 	}
@@ -645,9 +677,9 @@ func FnE(name string, args ...Expr) Expr {
 		switch signOf(args[0]) {
 		case SignZero:
 			return Expr{}
-		case SignBigPos:
+		case SignBigPos, SignSmallPos:
 			return args[0]
-		case SignBigNeg:
+		case SignBigNeg, SignSmallNeg:
 			return Neg(args[0])
 		}
 	case "max", "min":
@@ -659,13 +691,13 @@ func FnE(name string, args ...Expr) Expr {
 		if s == SignZero {
 			return a
 		}
-		if s == SignBigPos {
+		if s == SignBigPos || s == SignSmallPos {
 			if name == "max" {
 				return a
 			}
 			return b
 		}
-		if s == SignBigNeg {
+		if s == SignBigNeg || s == SignSmallNeg {
 			if name == "max" {
 				return b
 			}
@@ -951,6 +983,14 @@ func sigmaPlain(v string, n Poly, body Expr) Expr {
 		if c == 1 {
 			return body.SubstIdx(map[string]Poly{v: PInt(0)})
 		}
+		if c <= 24 {
+			// concrete small range: write the sum out
+			out := Expr{}
+			for i := int64(0); i < c; i++ {
+				out = Add(out, body.SubstIdx(map[string]Poly{v: PInt(i)}))
+			}
+			return out
+		}
 	}
 	out := Expr{}
 	for _, t := range body.terms {
@@ -977,6 +1017,13 @@ func BigMax(v string, n Poly, body Expr) Expr {
 	if c, ok := n.Const(); ok && c == 1 {
 		return body.SubstIdx(map[string]Poly{v: PInt(0)})
 	}
+	if c, ok := n.Const(); ok && c > 1 && c <= 24 {
+		out := body.SubstIdx(map[string]Poly{v: PInt(0)})
+		for i := int64(1); i < c; i++ {
+			out = FnE("max", out, body.SubstIdx(map[string]Poly{v: PInt(i)}))
+		}
+		return out
+	}
 	if !body.Mentions(v) {
 		return body
 	}
@@ -986,6 +1033,13 @@ func BigMax(v string, n Poly, body Expr) Expr {
 func BigMin(v string, n Poly, body Expr) Expr {
 	if c, ok := n.Const(); ok && c == 1 {
 		return body.SubstIdx(map[string]Poly{v: PInt(0)})
+	}
+	if c, ok := n.Const(); ok && c > 1 && c <= 24 {
+		out := body.SubstIdx(map[string]Poly{v: PInt(0)})
+		for i := int64(1); i < c; i++ {
+			out = FnE("min", out, body.SubstIdx(map[string]Poly{v: PInt(i)}))
+		}
+		return out
 	}
 	if !body.Mentions(v) {
 		return body
